@@ -1311,6 +1311,40 @@ def _concurrent_done(ix, pos, done, parent):
     return False
 
 
+def _completion_cfg(st):
+    c = st.get("cfg")
+    if c is None:
+        return {"tol": 0, "pct": 0} if st["op"] == "parallel" else {}
+    if c.get("preset"):
+        return {"first_successful": {"min": 1}, "all_successful": {"tol": 0, "pct": 0}}.get(c["preset"], {})
+    return {k: c[k] for k in ("min", "tol", "pct") if c.get(k) is not None}
+
+
+def _possibly_orphaned(ix, cfg, pos, seq, inv):
+    """Some map/parallel that encloses `pos` had its completion policy decided (strict or lenient reading) by the branch
+    records accepted before `seq`: the branch the call sits in may be running as an orphan."""
+    stmts = statements(cfg["program"])
+    for par_pos, _ in _branch_chain(pos):
+        st = stmts.get(par_pos)
+        pid = ix.pos_id(par_pos)
+        if not st or st["op"] not in ("parallel", "map") or pid is None:
+            continue
+        n = len(st["branches"]) if st["op"] == "parallel" else len(st["items"])
+        cc = _completion_cfg(st)
+        # what the executor of THIS invocation has seen finish so far (a branch that an earlier invocation completed counts
+        # once it has been traversed again)
+        s_c = f_c = 0
+        for b in ix.kinds["body-exit"]:
+            if b["i"] == inv and b["s"] < seq and b.get("bkind") == "branch" and b.get("parent") == par_pos:
+                if b["outcome"] == "ret":
+                    s_c += 1
+                elif b.get("cls") not in ("SuspendExecution", "TimedSuspendExecution", "OrphanedChildException", "SimKilled"):
+                    f_c += 1
+        if s_c + f_c < n and (_policy_decided(cc, n, s_c, f_c, strict=True) or _policy_decided(cc, n, s_c, f_c, strict=False)):
+            return True
+    return False
+
+
 def check_c17(ix, cfg):
     out = []
     w = ix.w
@@ -1373,7 +1407,13 @@ def check_c17(ix, cfg):
                         silent_expected = True
                         break
                     p_ = cp[1]
-            if silent_expected and emitted:
+            if silent_expected and emitted and _possibly_orphaned(ix, cfg, pos, e["s"], inv):
+                # the call was made by a branch whose map/parallel had (under one of the two readings of its completion
+                # config) already been decided: user code the SDK has abandoned, and by design counted as "passed" by the
+                # replay tracking (everything under a context completed in this invocation). Outside the property's quantifier
+                # ("map/parallel blocks treated as units"): not judged.
+                pass
+            elif silent_expected and emitted:
                 cls_ = "logged-during-replay"
                 # known finding: the replay status is one flag per invocation; a branch that the timer thread resubmits in
                 # process runs its body again from the top after the flag has moved to NEW
